@@ -203,6 +203,37 @@ func init() {
 		"vpEqBytes": func(e *Engine, fr *Frame, args []Value) (Value, bool) {
 			return strEq(Str{e.sliceTerms(args[0].(Slice))}, Str{e.sliceTerms(args[1].(Slice))}), true
 		},
+		"vpScalarBits": func(e *Engine, fr *Frame, args []Value) (Value, bool) {
+			i, ok := args[0].(Iface)
+			if !ok || i.T == nil {
+				return smt.BV(0, 64), true
+			}
+			w := bvWidth(i.T)
+			if w == 0 {
+				w = 8
+			}
+			if w < 0 {
+				w = 0
+			}
+			return smt.BV(uint64(w), 64), true
+		},
+		"vpScalarU64": func(e *Engine, fr *Frame, args []Value) (Value, bool) {
+			i, ok := args[0].(Iface)
+			if !ok || i.T == nil {
+				return smt.BV(0, 64), true
+			}
+			t, ok := i.V.(*smt.Term)
+			if !ok {
+				return smt.BV(0, 64), true
+			}
+			if t.W == 0 {
+				return smt.Ite(t, smt.BV(1, 64), smt.BV(0, 64)), true
+			}
+			if isSigned(i.T) {
+				return smt.SExt(t, 64), true
+			}
+			return smt.ZExt(t, 64), true
+		},
 		"vpParam": func(e *Engine, fr *Frame, args []Value) (Value, bool) {
 			name := e.strArg(args[0], "vpParam")
 			v, ok := e.Cfg.Params[name]
